@@ -55,6 +55,13 @@ class Builder:
               "u": ["u", "inst", "g", "b"]}
 
     def nm(self, prefix, scope=None):
+        nm = self._nm(prefix, scope)
+        if nm is not None and prefix in ("u", "n") and self.c.get("slash_rate") and self.r.random() < self.c["slash_rate"]:
+            # the hierarchy separator inside a name (escaped Verilog identifiers and EDIF renames produce these)
+            nm = self.r.choice(["/" + nm, nm + "/", nm + "/x", "a/" + nm])
+        return nm
+
+    def _nm(self, prefix, scope=None):
         self.uid += 1
         if self.c["unnamed"] and self.r.random() < self.c["unnamed"]:
             return None
@@ -240,7 +247,7 @@ class Builder:
                     props = dict(props or {})
                     plist = []
                     for pk in range(r.randint(1, 3)):
-                        val = r.choice(["8'h0F", "hello world", 3, 0, -7, True, False, "a.b/c", ""])
+                        val = r.choice(["8'h0F", "hello world", 3, 0, 1, -7, True, False, "a.b/c", "", "50% duty"])
                         pr = {"identifier": "P%d" % pk, "value": val}
                         if r.random() < 0.3:
                             pr["original_identifier"] = "p[%d]" % pk
